@@ -110,7 +110,7 @@ def c09_pfba(E, templates=QUICK_T, fractions=(1, Fraction(1, 2), 0)):
         E.prove(E.eq(sol.objective_value, _sum_abs(sol.fluxes, ids)), "objective_value=sum|v|")
 
 
-def c09_moma(E, templates=(("T1", None), ("T2", 3), ("T3", 2))):
+def c09_moma(E, templates=(("T1", None), ("T2", 2), ("T3", 2))):
     m, obj, direction, ids = _model(E, templates)
     m.objective = {m.reactions.get_by_id(r): c for r, c in obj.items()}
     m.objective_direction = direction
@@ -188,7 +188,7 @@ HARNESSES = [
       bounds="T1 all bounds symbolic, T2/T7 first 3, T3 first 2; objective via model or objective= ; max/min; fraction {1,1/2,0} "
              "(optimum sign assumed for fraction<1); reactions None/objects/ids"),
     H("c09_moma", c09_moma, tiers=("quick",), quick=dict(max_paths=8000, time_budget=70),
-      bounds="T1 all, T2 first 3, T3 first 2 symbolic; reference: pFBA or FBA solution of the wild type (symbolic, from the "
+      bounds="T1 all, T2 and T3 first 2 symbolic; reference: pFBA or FBA solution of the wild type (symbolic, from the "
              "stub) or default; one reaction (every choice, or none) knocked out after the reference was taken"),
     H("c09_pfba_thorough", c09_pfba_thorough, tiers=("thorough",), thorough=dict(max_paths=400000, time_budget=500),
       bounds="T1,T2,T3,T7 all symbolic, T4 first 4; fractions {1,9/10,1/2,0}"),
